@@ -37,7 +37,10 @@ def canary_tworeplies(traces):
 def run(tier):
     wd = workdir('C07')
     return flow.standard(
-        'C07', tier, [{'name': 'SmtpServer: complete command x verdict graph', 'module': 'SmtpServer', 'cfg': 'SmtpServer.cfg', 'coverage': True}], 'c07', 'Trace_SmtpServer', 'Trace_SmtpServer.cfg', [canary_order, canary_reset, canary_tworeplies],
+        'C07', tier, [{'name': 'SmtpServer: complete command x verdict graph, STARTTLS and AUTH configured', 'module': 'SmtpServer', 'cfg': 'SmtpServer.cfg', 'coverage': True},
+                     {'name': 'SmtpServer: complete command x verdict graph, no extensions configured', 'module': 'SmtpServer', 'cfg': 'SmtpServer_plain.cfg', 'coverage': True},
+                     {'name': 'deviation KF_BareArg421 (D9 as found): TLC must find the malformed command that ends the session',
+                      'module': 'SmtpServer', 'cfg': 'SmtpServer_kf9.cfg', 'expect_violation': ['C07_ErrorsDoNotClose', 'C08_AuthMalformed', 'C07_NoCallbackOnError']}], 'c07', 'Trace_SmtpServer', 'Trace_SmtpServer.cfg', [canary_order, canary_reset, canary_tworeplies],
         level='model_checking',
         rule='command sequences over {EHLO, HELO, MAIL, RCPT, DATA+content, RSET, NOOP, QUIT, unknown/unparseable, malformed '
              'variants} exhaustively to the depth bound after five protocol prefixes; a transaction skeleton x every '
